@@ -198,7 +198,9 @@ impl Hist {
         let mut uncles: Vec<UncleBlockView> = vec![];
         if allow_uncles && rng.chance(1, 3) {
             for u in self.stash.iter() {
+                // the stash may hold a block twice (abandoned, revived and abandoned again)
                 if uncles.len() < 2
+                    && !uncles.iter().any(|x| x.hash() == u.hash())
                     && !self.used_uncles.contains(&u.hash())
                     && u.number() < number
                     && snap.get_block_number(&u.hash()).is_none()
